@@ -253,6 +253,16 @@ def main(prop: str, body: Callable[[Check], None], level: str = 'model_checking'
   if os.environ.get('VERIF_REPLAY'):
     _replay_main(prop, body, level, os.environ['VERIF_REPLAY'])
   chk = Check(prop, level)
+  # watchdog: a check never hangs - after the limit it reports a failure of the machinery (exit 2), not a verdict
+  import threading as _threading
+  limit = float(os.environ.get('VERIF_WATCHDOG_S', '1500' if chk.tier == 'quick' else '21600'))
+
+  def _expired():
+    print(f'MACHINERY-FAILURE property={prop}: no verdict within {limit:.0f}s (watchdog)', file=sys.stderr)
+    _hard_exit(2)
+  wd = _threading.Timer(limit, _expired)
+  wd.daemon = True
+  wd.start()
   try:
     body(chk)
   except SystemExit:
